@@ -38,6 +38,7 @@ type Conn struct {
 	Written      []byte
 	ReadAt       []int64 // virtual time of every read that returned data
 	ReadN        []int
+	ReadCallAt   []int64 // virtual time of every Read call (attempt)
 	DeadlineSets int
 	Menu         func(max int) []int
 }
